@@ -56,7 +56,8 @@ def replay_shape(run, F, E):
             users = sorted(set(u.get('m') for _, u in E.reaches_user(fn)))
             run.ob('C11.c', '%s::%s runs only enter/exit/reenter of user code' % (tk, m), set(users) <= {'enter', 'exit', 'reenter'} and bool(users),
                    where=fn.pat, detail=users, key='%s::%s runs other user callbacks' % (tk, m))
-            # history := Transition{destination}
+            # history := Transition{destination} (a public wrapper that only forwards to a non-public implementation is looked through)
+            fn = anchors.through_forwarders(F, fn)
             c = cfgmod.cfg_of(fn)
             asg = [n for n in c.events(('call',)) if (n.e.get('op') == '=' or n.e.get('m') == 'operator=') and ir.is_expr(n.e.get('obj'))
                    and E.lv(n.e['obj'], fn) == {('core', 'previousTransition')}]
